@@ -499,12 +499,12 @@ func c13count(c *core.Ctx) {
 	c.Floor(R, 12)
 	type want struct{ digit, minus, plus string }
 	states := map[string]want{
-		"stateOnSearchStart":         {digit: "s.intLen++", minus: "s.negative = true"},
-		"stateMinusFound":            {digit: "s.intLen++"},
+		"stateOnSearchStart":         {digit: "s.intLen += 1", minus: "s.negative = true"},
+		"stateMinusFound":            {digit: "s.intLen += 1"},
 		"stateFirstZeroFound":        {},
-		"stateIntegerNumberFound":    {digit: "s.intLen++"},
-		"statePointFound":            {digit: "s.fraLen++"},
-		"stateFractionalNumberFound": {digit: "s.fraLen++"},
+		"stateIntegerNumberFound":    {digit: "s.intLen += 1"},
+		"statePointFound":            {digit: "s.fraLen += 1"},
+		"stateFractionalNumberFound": {digit: "s.fraLen += 1"},
 		"stateExpFound":              {digit: "s.expBegin = s.index", minus: "s.expBegin = s.index"},
 		"stateExpSignFound":          {digit: "s.expBegin = s.index"},
 		"stateExpNumberFound":        {},
